@@ -250,6 +250,7 @@ class SimRandom:
         self.extremes = 0
         self.trace = None          # optional list of (kind, value) for monitors that need the draws
         self.last_sample = None
+        self.last_choice = None
 
     def begin(self, D, sut_seed, p_ext=0.0):
         self.r = _pyrandom.Random(sut_seed)
@@ -289,6 +290,7 @@ class SimRandom:
         i = self.r.randrange(n)
         if self._ext():
             i = (0, n - 1)[self.D.dec('prng', ('v', self.draws), 2)]
+        self.last_choice = seq[i]
         return seq[i]
 
     def sample(self, population, k):
